@@ -187,6 +187,7 @@ class Delegate(Visitor):
 class Convener(Delegate):
     """carries the lowest (leads) and the highest (attends) level of Leads < Chairs < Attends, but not the middle one"""
     leads: List[Org] = field(default_factory=list)
+    shows: List[Org] = field(default_factory=list)
 
 
 @dataclass(eq=False)
@@ -335,6 +336,11 @@ class Guides(Sees):
 
 
 @dataclass
+class Shows(Guides):
+    """Shows < Guides < Sees without an inverse: Convener carries the lowest and the highest level only"""
+
+
+@dataclass
 class EmployedBy(PropertyDescriptor):
     pass
 
@@ -383,6 +389,7 @@ Org.attendees = Attendees(Org, "attendees")
 Chair.chairs = Chairs(Chair, "chairs")
 Delegate.sees = Sees(Delegate, "sees")
 Chair.guides = Guides(Chair, "guides")
+Convener.shows = Shows(Convener, "shows")
 Convener.leads = Leads(Convener, "leads")
 Boss.runs = Runs(Boss, "runs")
 Boss.employed_by = EmployedBy(Boss, "employed_by")
